@@ -587,8 +587,16 @@ def _open_histories():
         "open_text_with_tab": [("open", "a.f90", "program a\n\tinteger :: i\nend program a\n"),
                                ("change", "a.f90", {"range": {"start": {"line": 1, "character": 1}, "end": {"line": 1, "character": 1}}, "text": "x"})],
     }
+    # the file on disk itself holds tabs and the client opens it with exactly that text (load_from_disk replaces tabs by
+    # blanks: the text of didOpen must win), then edits behind the tab
+    tabbed = "program t\n\tinteger :: counter\n\tcounter = 1\nend program t\n"
+    edit_t = {"range": {"start": {"line": 2, "character": 11}, "end": {"line": 2, "character": 12}}, "text": "12"}
+    histories["open_tabbed_file_with_its_disk_text"] = [("open", "t.f90", tabbed), ("change", "t.f90", edit_t)]
+    histories["open_tabbed_file_with_its_disk_text_crlf"] = [("open", "t.f90", tabbed.replace("\n", "\r\n")), ("change", "t.f90", edit_t)]
+    histories["edit_tabbed_file_close_reopen_with_disk_text"] = [("open", "t.f90", tabbed), ("change", "t.f90", edit_t), ("close", "t.f90", None),
+                                                                  ("open", "t.f90", tabbed), ("change", "t.f90", edit_t)]
     for hname, steps in histories.items():
-        ws = Workspace({"a.f90": disk})
+        ws = Workspace({"a.f90": disk, "t.f90": tabbed})
         try:
             srv, rw = make_server()
             srv.nthreads = 1
